@@ -26,7 +26,8 @@ def real_call(fn):
 
 def gen_table(rng, ncols, nrows, kind):
     rows = []
-    off = [rand_frac(rng, -1000, 1000) if kind == "offset" else 0 for _ in range(ncols)]
+    off = [rand_frac(rng, -1000, 1000) if kind == "offset" else
+           F(rng.choice([10**7, -10**8, 2**30, 10**9])) if kind == "bigoffset" else 0 for _ in range(ncols)]
     for _ in range(nrows):
         if kind == "int":
             rows.append([F(rng.randint(-9, 9)) for _ in range(ncols)])
@@ -76,7 +77,7 @@ def flat(names, a):
 def build_cases(chk: Check, n_cases: int, max_rows: int):
     rng = chk.rng
     cases = []
-    kinds = ["frac", "int", "offset", "ties"]
+    kinds = ["frac", "int", "offset", "ties", "bigoffset"]
     for i in range(n_cases):
         k = rng.randint(1, 4)
         names = [f"c{j}" for j in range(k)]
@@ -196,28 +197,40 @@ def run_exact(chk: Check, cases, with_gen: bool):
 
 
 def run_float(chk: Check, cases, results):
-    """`for all floating-point inputs up to rounding`: checked against the exact value."""
+    """`for all floating-point inputs up to rounding`.  The float Aggregates are pooled by the real `__add__`; the
+    reference is the EXACT value of the pooled statistics of those same float inputs (the real code run on their
+    exact rationals: every algebraically correct formula gives this value).  A numerically stable formula reproduces
+    it to ~1e-15 relative to the pooled spread; a formula that subtracts quantities of size mean^2 does not."""
     worst = 0.0
-    u = 2.0 ** -53
     for i, (c, r) in enumerate(zip(cases, results)):
         nm = c["names"]
-        A1, A2, A12 = (mk_real(*r[k], conv=float) for k in ("a1", "a2", "a12"))
+        A1, A2 = (mk_real(*r[k], conv=float) for k in ("a1", "a2"))
+        E1, E2 = (mk_real(*r[k], conv=lambda x: F(float(x))) for k in ("a1", "a2"))
         st, val = real_call(lambda: A1 + A2)
-        if st != "ok":
-            chk.fail("Aggregates.__add__ raised on floats", dict(case=i, observed=val))
+        st2, ref = real_call(lambda: E1 + E2)
+        if st != "ok" or st2 != "ok":
+            chk.fail("Aggregates.__add__ raised on floats", dict(case=i, observed=val if st != "ok" else ref))
             continue
         n = len(c["t1"]) + len(c["t2"])
-        cols = list(zip(*(c["t1"] + c["t2"])))
-        for (lab, got), (_, exp) in zip(flat(nm, val), flat(nm, mk_real(*r["a12"]))):
-            # conditioning: the pooled second moments are differences of quantities of size max|x|^2
-            scale = max(float(abs(v)) for col in cols for v in col) ** 2 + 1.0
-            tol = 64 * u * (abs(float(exp)) + (scale if lab.startswith(("var", "cov")) else math.sqrt(scale)))
-            err = abs(float(got) - float(exp))
+        pooled_sd = {x: math.sqrt(max(float(ref.var_[x]), 0.0)) for x in nm}
+        for (lab, got), (_, exp) in zip(flat(nm, val), flat(nm, ref)):
+            kind, _, cols_ = lab.partition(" ")
+            if kind == "count":
+                tol = 0.0
+            elif kind == "mean":
+                tol = 1e-12 * (abs(float(exp)) + pooled_sd[cols_])
+            elif kind == "var":
+                tol = 1e-11 * abs(float(exp)) + 1e-300
+            else:
+                a, b = cols_.split(",")
+                tol = 1e-11 * (abs(float(exp)) + pooled_sd[a] * pooled_sd[b]) + 1e-300
+            err = abs(float(F(got) - F(exp))) if kind != "count" else abs(got - exp)
             worst = max(worst, err / tol if tol else 0)
             chk.case(("float", i, lab), nontrivial=False)
             if err > tol:
-                chk.fail(f"float pooling off by more than the conditioning-scaled tolerance ({lab})",
-                         dict(case=i, names=nm, observed=repr(got), expected=str(exp), tol=tol, n=n))
+                chk.fail(f"float pooling is off by far more than rounding ({lab}): a cancellation-prone formula?",
+                         dict(case=i, names=nm, kind=c["kind"], observed=repr(got), exact=float(exp), error=err, tol=tol, n=n,
+                              left=repr(A1)[:400], right=repr(A2)[:400]))
                 break
     chk.cov["float_worst_err_over_tol"] = round(worst, 4)
 
